@@ -355,6 +355,20 @@ def replay(rec):
                     err = np.abs(f - want).max() / max(want.max(), 1e-300)
                     if not np.isfinite(err) or err > 1e-9 or (f < 0).any():
                         bad.append(["footprint", str(type(zm).__name__), zm, L, wd, float(err)])
+        # call histories: the same footprint preceded by a footprint for another receptor on the same grid
+        import importlib
+
+        import bldfm.ffm_kormann_meixner as KM
+
+        for wd in (None, 270.0, 37.5):
+            args = (10.0, 0.1, 3.0, 0.4, 60.0, 0.8, [-60, 60, -60, 60], 10.0)
+            KM.estimateFootprint(*args, [5.0, -5.0], wd=wd)
+            gx, gy, f2 = KM.estimateFootprint(*args, [-20.0, 15.0], wd=wd)
+            KM = importlib.reload(KM)
+            gx, gy, ref = KM.estimateFootprint(*args, [-20.0, 15.0], wd=wd)
+            err = float(np.abs(f2 - ref).max() / max(np.abs(ref).max(), 1e-300))
+            if not np.isfinite(err) or err > 1e-12:
+                bad.append(["footprint depends on an earlier call (other receptor, same grid)", wd, err])
         rng = np.random.default_rng(0)
         for hw in (22, 3):
             for trial in range(6):
